@@ -251,7 +251,81 @@ def check_match_api(repo, rep):
         n = 0
         n = _match_api_pass(repo, rep if round_ == 2 else None, mod,
                             param_kinds)
+    n += _publish_by_evaluation(repo, rep, mod)
     rep.floor('re.Match API obligations', n, 3)
+
+
+def _publish_by_evaluation(repo, rep, mod):
+    """_publish_match applied abstractly to a match of `(a)(?P<n>b)?` on
+    'a!' (group 2 / n did not take part): $1 is the whole match, $2 and $3
+    the numbered groups, $n the named one, each with value / start / end as
+    re.Match reports them -- null and -1 for the group that is unset.
+    Returns the number of obligations recorded (0 when the function is
+    outside the evaluator's fragment)."""
+    from sa import absint
+    fi = mod.functions.get('_publish_match')
+    if fi is None or len(fi.params()) != 2:
+        return 0
+    values = {0: 'a', 1: 'a', 2: None, 'n': None}
+    spans = {0: (0, 1), 1: (0, 1), 2: (-1, -1), 'n': (-1, -1)}
+
+    def oracle(callee, args, kwargs):
+        if not callee.startswith('match.'):
+            return None
+        what = callee[6:]
+        key = args[0] if args else 0
+        if what == 'group':
+            if len(args) > 1:
+                return (tuple(values[k] for k in args),)
+            return (values[key],)
+        if what == 'groups':
+            return ((values[1], values[2]),)
+        if what == 'groupdict':
+            return ({'n': values['n']},)
+        if what == 'start':
+            return (spans[key][0],)
+        if what == 'end':
+            return (spans[key][1],)
+        if what == 'span':
+            return (spans[key],)
+        return None
+    match = absint.Obj(
+        'match', string='a!', pos=0, endpos=2, lastindex=1, lastgroup=None,
+        re=absint.Obj('pattern', groups=2, groupindex={'n': 2},
+                      pattern='(a)(?P<n>b)?'),
+        **{k: absint.Sym('match.' + k) for k in (
+            'group', 'groups', 'groupdict', 'start', 'end', 'span')})
+    ctx = {}
+    it = absint.Interp(repo, mod, oracle)
+    it.shared['eager-generators'] = True
+    try:
+        it.run(fi.node, {fi.params()[0]: ctx, fi.params()[1]: match})
+    except (absint.Unsupported, absint._Raise, RecursionError, TypeError,
+            KeyError, IndexError) as e:
+        rep.note('R19b: _publish_match not interpretable (%r)' % (e,))
+        return 0
+    want = {'$1': 0, '$2': 1, '$3': 2, '$n': 'n'}
+    n = 0
+    for var, key in want.items():
+        n += 1
+        got = ctx.get(var)
+        exp = {'value': values[key], 'start': spans[key][0],
+               'end': spans[key][1]}
+        ok = isinstance(got, dict) and all(
+            (got.get(f) is exp[f]) if exp[f] is None else
+            (got.get(f) == exp[f] and type(got.get(f)) is type(exp[f]))
+            for f in exp) and set(got) == set(exp)
+        rep.ob('R19b', '%s/publishes[%s]' % (fi.key, var), ok,
+               'for a match of (a)(?P<n>b)? on \'a!\' the variable %s must '
+               'be %r (what re.Match reports for that group: an optional '
+               'group that did not take part is null, at -1); '
+               '_publish_match publishes %r' % (var, exp, got),
+               loc=mod.loc(fi.node))
+    extra = sorted(set(ctx) - set(want))
+    rep.ob('R19b', fi.key + '/publishes-nothing-else', not extra,
+           '_publish_match publishes %s besides $1..$3 and $n' % extra,
+           loc=mod.loc(fi.node))
+    return n + 1
 
 
 def _match_api_pass(repo, rep, mod, param_kinds):
